@@ -338,47 +338,57 @@ def spec_lower(s):
     return ''.join(chr(ord(c) + 32) if ('A' <= c <= 'Z' or ('\xc0' <= c <= '\xde' and c != '\xd7')) else c for c in s)
 
 
+_TAB = {'A': 'T', 'C': 'G', 'G': 'C', 'T': 'A', 'R': 'Y', 'Y': 'R', 'S': 'S', 'W': 'W', 'K': 'M', 'M': 'K', 'B': 'V', 'V': 'B',
+        'D': 'H', 'H': 'D', 'N': 'N', '.': '.', '-': '-'}
+
+
+def step_expect(heap, bask, op, once_per_object=False):
+    """the state after one step, from first principles. The loop of a basket-level method reaches an object once per listing (what
+    sugar does); with once_per_object an object listed several times is operated on once (the property text allows either)."""
+    heap, bask = list(heap), list(bask)
+    opc, p, arg = op
+    c = spec_c_any
+    fs = {0: c, 1: lambda x: x[::-1], 2: lambda x: c(x[::-1]), 3: lambda x: c(x[::-1]),
+          8: lambda x: ''.join(_TAB.get(ch, ch) for ch in x), 9: lambda x: x.replace('T', 'U'), 10: lambda x: x.replace('U', 'T'),
+          12: spec_lower}
+    bf = {5: 0, 6: 1, 7: 2, 17: 2, 11: 8}
+    i = bask[p]
+    if opc == 4:
+        heap.append(heap[i])
+        bask[p] = len(heap) - 1
+    elif opc == 14:
+        bask.append(i)
+    elif opc == 16:
+        heap.append(spec_upper(arg))
+        bask.append(len(heap) - 1)
+    elif opc == 13:
+        heap[i] = arg
+    elif opc == 15:
+        heap[i] = heap[i] + arg
+    elif opc in bf or opc in (18, 19):
+        listed = bask if opc in bf else bask[p:] if opc == 18 else bask[:p + 1]
+        f = fs[bf[opc]] if opc in bf else fs[2] if opc == 18 else fs[0]
+        if once_per_object:
+            listed = list(dict.fromkeys(listed))
+        for j in listed:              # the per-sequence operation for every listed object, in order
+            heap[j] = f(heap[j])
+    else:
+        heap[i] = fs[opc](heap[i])
+    return [heap, bask]
+
+
 def spec_hist(case, got):
     if isinstance(got, dict):
         return 'raised %s' % got['e']
-    heap = [spec_upper(m[1]) if m[0] else m[1] for m in case['init']]
-    bask = list(range(len(heap)))
-    tab = {'A': 'T', 'C': 'G', 'G': 'C', 'T': 'A', 'R': 'Y', 'Y': 'R', 'S': 'S', 'W': 'W', 'K': 'M', 'M': 'K', 'B': 'V', 'V': 'B',
-           'D': 'H', 'H': 'D', 'N': 'N', '.': '.', '-': '-'}
-    c = spec_c_any
-    fs = {0: c, 1: lambda x: x[::-1], 2: lambda x: c(x[::-1]), 3: lambda x: c(x[::-1]),
-          8: lambda x: ''.join(tab.get(ch, ch) for ch in x), 9: lambda x: x.replace('T', 'U'), 10: lambda x: x.replace('U', 'T'),
-          12: spec_lower}
-    bf = {5: 0, 6: 1, 7: 2, 17: 2, 11: 8}
     if len(got) != len(case['ops']):
         return 'number of states'
-    for k, (opc, p, arg) in enumerate(case['ops']):
-        i = bask[p]
-        if opc == 4:
-            heap.append(heap[i])
-            bask[p] = len(heap) - 1
-        elif opc == 14:
-            bask.append(i)
-        elif opc == 16:
-            heap.append(spec_upper(arg))
-            bask.append(len(heap) - 1)
-        elif opc == 13:
-            heap[i] = arg
-        elif opc == 15:
-            heap[i] = heap[i] + arg
-        elif opc in bf:
-            for j in bask:                # the per-sequence operation for every listed object, in order
-                heap[j] = fs[bf[opc]](heap[j])
-        elif opc == 18:
-            for j in bask[p:]:
-                heap[j] = fs[2](heap[j])
-        elif opc == 19:
-            for j in bask[:p + 1]:
-                heap[j] = fs[0](heap[j])
-        else:
-            heap[i] = fs[opc](heap[i])
-        if got[k] != [heap, bask]:
-            return 'after step %d (%s): expected %r got %r' % (k, OPNAMES[opc], [heap, bask], got[k])
+    heap = [spec_upper(m[1]) if m[0] else m[1] for m in case['init']]
+    prev = [heap, list(range(len(heap)))]
+    for k, op in enumerate(case['ops']):
+        exp = step_expect(prev[0], prev[1], op)
+        if got[k] != exp and not (len(set(prev[1])) < len(prev[1]) and got[k] == step_expect(prev[0], prev[1], op, True)):
+            return 'after step %d (%s): expected %r got %r' % (k, OPNAMES[op[0]], exp, got[k])
+        prev = got[k]
     return None
 
 
@@ -543,6 +553,9 @@ def _derive_sets(case, pairs):
 
 
 def agree(case, implval, modelval):
+    if case.get('kind') == 'hist':
+        # the model operates on an object once per listing in the basket; once per object is as good for the property
+        return implval == modelval or (any(o[0] == 14 for o in case['ops']) and spec_hist(case, implval) is None)
     if case.get('kind') == 'derive':
         if isinstance(implval, dict) and implval.get('skip'):
             return True
@@ -702,7 +715,7 @@ LEVEL_TEXT = ('Machine-checked Coq theorems for EVERY byte string (not only the 
 LEVEL_NOTE = ('Trusted: Coq kernel/vm_compute, tools/gen_data.py (tables), the correspondence harness, CPython str.translate/replace/upper/lower. '
               'Modelled rather than verified: BioSeq.__init__ (upper-casing), complement/reverse/rc/gc, .str.translate/.replace/.lower, copy, '
               'BioBasket.complement/reverse/rc/.str.translate over a heap of objects with handles (run_C05_hist); Python str limited to Latin-1, '
-              'constructor input without 0xB5/0xFF (upper case leaves Latin-1). Object identity (the receiver is returned) is tested only. That complement leaves bytes outside the 17 symbols and U alone (lower case included) is a statement about the present code: the property text is silent there, an extension of the table to lower case would be reported. Line 227 of BioSeq.__init__ (metadata from a mapping) is not reached: it does not touch residues. '
+              'constructor input without 0xB5/0xFF (upper case leaves Latin-1). Object identity (the receiver is returned) is tested only. For a basket that lists the same object twice the model (and sugar) operate on it once per listing; the harness also accepts once per object (an identity guard), the property text allows either. That complement leaves bytes outside the 17 symbols and U alone (lower case included) is a statement about the present code: the property text is silent there, an extension of the table to lower case would be reported. Line 227 of BioSeq.__init__ (metadata from a mapping) is not reached: it does not touch residues. '
               'All theorems closed under the global context (no axioms).')
 
 MODELLED_FUNCS = {'sugar/core/seq.py': ['BioSeq.__init__', '_BioSeqStr.translate', '_BioSeqStr.replace', '_BioSeqStr.lower', 'BioSeq.__iadd__', 'BioSeq.copy', 'BioSeq.complement', 'BioSeq.reverse', 'BioSeq.rc', 'BioSeq.gc', 'BioBasket.rc', 'BioBasket.complement', 'BioBasket.reverse']}
